@@ -18,7 +18,7 @@ feeds the model the unperturbed nets); `BSplineBasis.matches` by exact equality 
 normalised knot vectors.
 -/
 
-namespace Splipy
+namespace Splipy.MP
 
 /-! ## itertools -/
 
@@ -328,7 +328,7 @@ end Obj
 /-! ## `BSplineBasis.matches` -/
 
 /-- `BSplineBasis.matches(self, bspline, reverse)` with exact comparison of the normalised knots. -/
-def Basis.matchesB (a b : Basis ℚ) (reverse : Bool) : Bool :=
+def basisMatches (a b : Basis ℚ) (reverse : Bool) : Bool :=
   if a.order ≠ b.order ∨ a.periodic ≠ b.periodic then false
   else
     let ka := a.knots.toList
@@ -379,7 +379,7 @@ def compareNets (a b : Obj) : NdArr (List ℚ) × NdArr (List ℚ) :=
 /-- `all([cpa.bases[i].matches(cpb.bases[perm[i]], reverse=flip[i]) for i in range(pardim)])`. -/
 def basesMatch (o : Orientation) (a b : Obj) : Bool :=
   (List.range a.pardim).all fun i =>
-    (a.bases.getD i default).matchesB (b.bases.getD (o.perm.getD i 0) default) (o.flip.getD i false)
+    basisMatches (a.bases.getD i default) (b.bases.getD (o.perm.getD i 0) default) (o.flip.getD i false)
 
 /-- the test of one candidate orientation inside the double loop (`na`, `nb` are the two nets
     of `compareNets`). -/
@@ -400,4 +400,4 @@ def Orientation.compute (a b : Obj) : Except MErr Orientation :=
     | some o => .ok o
     | none => .error .orientation
 
-end Splipy
+end Splipy.MP
